@@ -1052,6 +1052,9 @@ class P(Prop):
                "heap model (world sessions): in states where WHICH value a name reads depends on where the columns sit in the observations - a track that shares its "
                "observations with a derived track after calls on that track, the sum of two tracks whose listings differ only in order, a sum that starts misaligned "
                "(both inside the known-finding classes) - outcome, listed names, values per observation and coordinates are compared, not the column values",
+               "stream 'vals' (model at V := String): a Python object is identified with its token - numbers by value (True = 1 = 1.0 = np.float64(1): the type of a "
+               "number is not compared), NaN as one token, a str by its characters, any other object (None, complex, bytes) by type name and repr; `add sub mul` of that "
+               "instance are never reached by the calls admitted there",
                "never generated: 'timestamp' as an operand, assignment to 't', '!' , NaN thresholds of segmentation, CONVOLUTION / FILTER_FFT in the same history as "
                "the operators whose Python arithmetic raises (numpy scalars stored by the former never raise)"]
     rule = ("histories of API calls on tracks of 0..5 observations, values small integers (as floats) and NaN; after EVERY call: listed names, every column, every "
